@@ -14,10 +14,72 @@ type boundsException struct {
 	fn, access string
 	// callee whose successful return (nil error) must dominate the access, if any
 	needOK string
+	// condition of an if statement with a returning body that must dominate the access, if any
+	needGuard string
+	// additional structural condition checked on the current tree, if any
+	check func(fs *FuncSrc) bool
 	reason string
 }
 
+// startIsPrefixLen: in fs every assignment to the variable start is the
+// constant 0, or a constant k inside `if strings.HasPrefix(s, lit)` with
+// len(lit) >= k (and s is not assigned in that body).
+func startIsPrefixLen(fs *FuncSrc) bool {
+	info := fs.Pkg.TypesInfo
+	ok, n := true, 0
+	var visit func(nd ast.Node, guard int64)
+	visit = func(nd ast.Node, guard int64) {
+		ast.Inspect(nd, func(m ast.Node) bool {
+			switch x := m.(type) {
+			case *ast.IfStmt:
+				g := guard
+				if call, isC := unparen(x.Cond).(*ast.CallExpr); isC && len(call.Args) == 2 && types.ExprString(call.Fun) == "strings.HasPrefix" && types.ExprString(call.Args[0]) == "s" {
+					if lit, isS := constString(info, call.Args[1]); isS {
+						g = int64(len(lit))
+					}
+				}
+				if x.Init != nil {
+					visit(x.Init, guard)
+				}
+				visit(x.Body, g)
+				if x.Else != nil {
+					visit(x.Else, guard)
+				}
+				return false
+			case *ast.AssignStmt:
+				for i, l := range x.Lhs {
+					id, isId := l.(*ast.Ident)
+					if !isId || id.Name != "start" || i >= len(x.Rhs) {
+						continue
+					}
+					n++
+					tv := info.Types[x.Rhs[i]]
+					if tv.Value == nil {
+						ok = false
+						continue
+					}
+					var v int64
+					if _, err := fmt.Sscan(tv.Value.ExactString(), &v); err != nil || v < 0 || v > guard {
+						ok = false
+					}
+				}
+			case *ast.IncDecStmt:
+				if id, isId := x.X.(*ast.Ident); isId && id.Name == "start" {
+					ok = false
+				}
+			}
+			return true
+		})
+	}
+	visit(fs.Body(), 0)
+	return ok && n > 0
+}
+
 var boundsExceptions = []boundsException{
+	{fn: "webserver.scanETag", access: "s[start:]", check: startIsPrefixLen,
+		reason: "start is 0, or the constant 2 assigned only under strings.HasPrefix(s, \"W/\") (checked structurally: every assignment to start is a constant not larger than the length of the prefix literal tested around it), so start <= len(s)"},
+	{fn: "webserver.(*fileHandler).ServeHTTP", access: "u[len(u) - 1]", needGuard: "!strings.HasPrefix(r.URL.Path, \"/\")",
+		reason: "u is r.URL.Path, which starts with '/' (checked: an if on !strings.HasPrefix(r.URL.Path, \"/\") whose body returns dominates the access); the request URL is not modified by the file-system calls in between"},
 	{fn: "codecs.PacketFlags", access: "packet.Payload[0]", needOK: "Unmarshal",
 		reason: "VP9Packet.Unmarshal returns errShortPacket for an empty payload, so a nil error (checked: dominates the access) implies len(packet.Payload) >= 1"},
 	{fn: "codecs.Keyframe", access: "packet.Payload[offset:]",
@@ -26,8 +88,9 @@ var boundsExceptions = []boundsException{
 
 // R12.1: every index / slice expression in package codecs is in bounds.
 func runC12Bounds(c *Ctx) {
-	c.Rule("R12.1", "E7", "every index and slice expression in package codecs is proven in bounds from dominating length tests (linear reasoning over must-facts); RewritePacket never re-slices or returns its buffer", 40)
+	c.Rule("R12.1", "E7", "every index and slice expression in packages codecs and webserver is proven in bounds from dominating length tests (linear reasoning over must-facts); RewritePacket never re-slices or returns its buffer", 60)
 	runC12BoundsPkg(c, "codecs")
+	runC12BoundsPkg(c, "webserver")
 }
 
 func runC12BoundsPkg(c *Ctx, pkgName string) {
@@ -71,11 +134,74 @@ func runC12BoundsPkg(c *Ctx, pkgName string) {
 				c.OK("R12.1", key, n.Pos(), "%s proven from the dominating tests", what)
 				return
 			}
+			// case split on the antecedent of an implication fact (a value set
+			// on one branch together with the condition of that branch)
+			for _, imp := range st.m {
+				if imp.Op != "imp" || imp.Cond == nil {
+					continue
+				}
+				split := func(pol *Fact) bool {
+					s2 := st
+					for _, g := range st.m {
+						if g.Op == "imp" && g.Cond != nil && g.Cond.key == pol.key && g.Then != nil {
+							s2 = s2.add(g.Then)
+						}
+					}
+					s2 = s2.add(pol)
+					in2 := stateIneqs(s2)
+					for _, g := range goals {
+						if !proveGE0(g, in2, nn) {
+							return false
+						}
+					}
+					return true
+				}
+				if split(imp.Cond) && split(complement(imp.Cond)) {
+					c.OK("R12.1", key, n.Pos(), "%s proven by case split on %s", what, imp.Cond.String())
+					return
+				}
+			}
+			// the less function of sort.Slice is called with 0 <= i, j < len(slice)
+			if ix, ok := n.(*ast.IndexExpr); ok && fs.Lit != nil {
+				if call, ok := p.Parent(fs.File, fs.Lit).(*ast.CallExpr); ok && len(call.Args) == 2 && call.Args[1] == ast.Expr(fs.Lit) {
+					if f := calleeOf(&CallSite{Call: call, In: fs.Parent}); f != nil && f.Pkg() != nil && f.Pkg().Path() == "sort" && (f.Name() == "Slice" || f.Name() == "SliceStable") {
+						if types.ExprString(call.Args[0]) == types.ExprString(ix.X) {
+							if id, ok := unparen(ix.Index).(*ast.Ident); ok {
+								for _, po := range fs.params(info) {
+									if po != nil && info.Uses[id] == po {
+										c.OK("R12.1", key, n.Pos(), "index is a parameter of the less function of sort.Slice over the same slice (contract: 0 <= i, j < len)")
+										return
+									}
+								}
+							}
+						}
+					}
+				}
+			}
 			// frozen exceptions
 			acc := types.ExprString(n.(ast.Expr))
 			for _, ex := range boundsExceptions {
 				if ex.fn != fs.Root().Name || ex.access != acc {
 					continue
+				}
+				if ex.check != nil && !ex.check(fs.Root()) {
+					continue
+				}
+				if ex.needGuard != "" {
+					okG := false
+					ast.Inspect(fs.Root().Body(), func(m ast.Node) bool {
+						ifs, ok := m.(*ast.IfStmt)
+						if !ok || types.ExprString(ifs.Cond) != ex.needGuard || len(ifs.Body.List) == 0 {
+							return true
+						}
+						if _, isRet := ifs.Body.List[len(ifs.Body.List)-1].(*ast.ReturnStmt); isRet && ifs.Else == nil && ff.DominatedByNode(n, ifs.Cond) {
+							okG = true
+						}
+						return true
+					})
+					if !okG {
+						continue
+					}
 				}
 				if ex.needOK != "" {
 					okDom := false
